@@ -549,6 +549,7 @@ def extra_phase(tier, base_seed, prop="C08"):
 
 def run_one(tape, tier, prop):
     res = RunResult()
+    res.stats["queue_size_knob_%s" % session.draw_queue_knob(tape)] += 1
     if prop == "C08":
         run_c08(tape, tier, res)
     else:
